@@ -121,3 +121,12 @@ Theorem c02_credential_reads_reviewed :
   forallb (fun e => SurfaceExpected.cred_reviewed (snd e)) SurfaceExpected.expected_credential_surface = true.
 Proof. vm_compute. reflexivity. Qed.
 Print Assumptions c02_credential_reads_reviewed.
+
+(* ---- the MAC the theorems speak of is computed the way the source computes it ---- *)
+(* regenerated from pkg/encryption/utils.go on this run: HMAC keyed with the secret over every further
+   field in order, the digest alone as result; SignedValue signs (name, encoded value, timestamp),
+   Validate checks the third field against (name, first field, second field) AS RECEIVED, and the
+   comparison is hmac.Equal.  The model's `mac (name ++ value ++ timestamp)` stands for exactly this. *)
+Theorem c02_mac_shape : forallb snd Surface.mac_shape = true /\ length Surface.mac_shape = 7%nat.
+Proof. split; vm_compute; reflexivity. Qed.
+Print Assumptions c02_mac_shape.
